@@ -188,14 +188,14 @@ def progress_trace(U, scn, notes, notes2, run_events, ok, clean, ngather):
     starts = {}
     for e in run_events:
         if e["e"] == "start":
-            starts[e["n"]] = starts.get(e["n"], 0) + 1
+            starts[e["n"]] = 1  # a call counts once, however many attempts retry made
     scopes = scn.get("scopes") or [[]] * scn["N"]
     per_label = {}
     for n, c in starts.items():
         lab = (*scopes[n - 1], f"vfcscen.f{n}")
         per_label[lab] = per_label.get(lab, 0) + c
     exp = [[sid("run", lab), c] for lab, c in sorted(per_label.items(), key=repr)]
-    nops = sum(1 for e in run_events if e["e"] in ("start", "read", "write"))
+    nops = len(starts) + sum(1 for e in run_events if e["e"] in ("read", "write"))
     ncalls = sum(1 for k in scn["kind"] if k == "call")
     ev.append({"e": "summary", "sec": "", "sc": 0, "amt": 0, "clean": clean, "ok": ok, "exp": exp, "runcalls": nops + ngather,
                "stalecalls": ncalls + ngather, "members_equal": notes2 is None or notes2 == notes})
